@@ -34,6 +34,31 @@ Proof. unfold sress, settoken, upda; cbn. by apply fmap_alter_same. Qed.
 Lemma sress_setsres s c b : sress (setsres s c b) = <[c := b]> (sress s).
 Proof. unfold sress, setsres, upda; cbn. rewrite <- alter_const_insert. by apply fmap_alter_const. Qed.
 
+Definition kicks (s : state) : list bool := kicked <$> s.(actors).
+Lemma stacks_setkick s c b : stacks (setkick s c b) = stacks s.
+Proof. unfold stacks, setkick, upda; cbn. by apply fmap_alter_same. Qed.
+Lemma toks_setkick s c b : toks (setkick s c b) = toks s.
+Proof. unfold toks, setkick, upda; cbn. by apply fmap_alter_same. Qed.
+Lemma sress_setkick s c b : sress (setkick s c b) = sress s.
+Proof. unfold sress, setkick, upda; cbn. by apply fmap_alter_same. Qed.
+Lemma stacks_kickall s : stacks (kickall s) = stacks s.
+Proof. unfold stacks, kickall; cbn. rewrite <- list_fmap_compose. by apply list_fmap_ext. Qed.
+Lemma toks_kickall s : toks (kickall s) = toks s.
+Proof. unfold toks, kickall; cbn. rewrite <- list_fmap_compose. by apply list_fmap_ext. Qed.
+Lemma sress_kickall s : sress (kickall s) = sress s.
+Proof. unfold sress, kickall; cbn. rewrite <- list_fmap_compose. by apply list_fmap_ext. Qed.
+Lemma kicks_setstack s a st : kicks (setstack s a st) = kicks s.
+Proof. unfold kicks, setstack, upda; cbn. by apply fmap_alter_same. Qed.
+Lemma kicks_settoken s c b : kicks (settoken s c b) = kicks s.
+Proof. unfold kicks, settoken, upda; cbn. by apply fmap_alter_same. Qed.
+Lemma kicks_setsres s c b : kicks (setsres s c b) = kicks s.
+Proof. unfold kicks, setsres, upda; cbn. by apply fmap_alter_same. Qed.
+Lemma kicks_setkick s c b : kicks (setkick s c b) = <[c := b]> (kicks s).
+Proof. unfold kicks, setkick, upda; cbn. rewrite <- alter_const_insert. by apply fmap_alter_const. Qed.
+Lemma kicks_kickall s : kicks (kickall s) = (fun _ => true) <$> kicks s.
+Proof. unfold kicks, kickall; cbn. rewrite <- !list_fmap_compose. by apply list_fmap_ext. Qed.
+Lemma kicks_lookup s a ac : s.(actors) !! a = Some ac -> kicks s !! a = Some ac.(kicked).
+Proof. intros H. unfold kicks. by rewrite list_lookup_fmap, H. Qed.
 Lemma stacks_lookup s a ac : s.(actors) !! a = Some ac -> stacks s !! a = Some ac.(stack).
 Proof. intros H. unfold stacks. by rewrite list_lookup_fmap, H. Qed.
 Lemma toks_lookup s a ac : s.(actors) !! a = Some ac -> toks s !! a = Some ac.(token).
@@ -116,8 +141,8 @@ Lemma toks_setdw s d c : toks (setdw s d c) = toks s. Proof. done. Qed.
 Lemma toks_setdbl s k c : toks (setdbl s k c) = toks s. Proof. done. Qed.
 Ltac solve_stacks :=
   rewrite ?stacks_setstack;
-  rewrite ?stacks_addlog, ?stacks_setf, ?stacks_setev, ?stacks_setdw, ?stacks_setdbl, ?stacks_settoken, ?stacks_setsres;
-  rewrite ?stacks_addlog, ?stacks_setf, ?stacks_setev, ?stacks_setdw, ?stacks_setdbl, ?stacks_settoken, ?stacks_setsres;
+  rewrite ?stacks_addlog, ?stacks_setf, ?stacks_setev, ?stacks_setdw, ?stacks_setdbl, ?stacks_settoken, ?stacks_setsres, ?stacks_setkick, ?stacks_kickall;
+  rewrite ?stacks_addlog, ?stacks_setf, ?stacks_setev, ?stacks_setdw, ?stacks_setdbl, ?stacks_settoken, ?stacks_setsres, ?stacks_setkick, ?stacks_kickall;
   reflexivity.
 
 (* the two steps that end a poll with Ready also pop the await / drop continuation frame *)
